@@ -2836,6 +2836,10 @@ def groupby_reduce(
 
         method = _choose_method(method, preferred_method, agg, by_, nax)
 
+        if method == "cohorts" and not chunks_cohorts:
+            # none of the requested labels is present, so there are no cohorts to reduce separately
+            method = "map-reduce"
+
         if agg.chunk[0] is None and method != "blockwise":
             raise NotImplementedError(
                 f"Aggregation {agg.name!r} is only implemented for dask arrays when method='blockwise'."
